@@ -289,6 +289,13 @@ for k, (op, arg) in enumerate(CFG['ops']):
         profile.enable() if arg is None else profile.enable(output_prefix=arg)
     elif op == 'disable':
         profile.disable()
+    elif op == 'decorate_ghost':
+        # a function whose source file does not exist (code built with exec), decorated and NEVER called
+        ns = {}
+        exec(compile('def ghost(x):\\n    y = x + 1\\n    return y\\n', '/nowhere/gone_' + str(k) + '.py', 'exec'), ns)
+        g = ns['ghost']
+        G = profile(g)
+        sames.append(G is g)
     else:
         def f(x, k=k):
             return x + k
@@ -296,6 +303,7 @@ for k, (op, arg) in enumerate(CFG['ops']):
         F(1)
         sames.append(F is f)
 profile.write_config.update(CFG['wc'])
+profile.show_config.update(CFG.get('show') or {})
 print('OBS ' + json.dumps(dict(sames=sames, impl=line_profiler.__file__, argv=sys.argv)))
 '''
 
@@ -306,9 +314,12 @@ def run_sub_ops(case, tmp):
     d = tempfile.mkdtemp(prefix='c14ops_', dir=tmp)
     try:
         with open(os.path.join(d, 'prog.py'), 'w') as fh:
-            fh.write(OPS_SCRIPT % dict(cfg=json.dumps(dict(ops=case['ops'], wc=case['wc']))))
+            fh.write(OPS_SCRIPT % dict(cfg=json.dumps(dict(ops=case['ops'], wc=case['wc'], show=case.get('show')))))
         env = dict(os.environ)
         env.pop('LINE_PROFILE', None)
+        env.pop('PYTHONIOENCODING', None)
+        if case.get('ioenc'):
+            env['PYTHONIOENCODING'] = case['ioenc']      # the encoding of the interpreter's stdout
         if case['env'] is not None:
             env['LINE_PROFILE'] = case['env']
         p = subprocess.run([sys.executable, 'prog.py'] + case['args'], cwd=d, env=env,
